@@ -15,6 +15,7 @@ Flags/results parity of the hand-written Rust evaluator with the Python lift for
 argument in reach without compiling the crate)."""
 from __future__ import annotations
 
+import ast
 import collections
 import multiprocessing as mp
 import os
@@ -24,7 +25,7 @@ from .. import isa
 from ..core import REPO, AnalysisError, Ctx
 from ..isa_abs import ASSUMPTIONS
 from ..isa_sweep import sweep
-from ..pyfacts import PyProgram
+from ..pyfacts import PyProgram, unparse
 from ..rs_decode import RS_MODE, RsDecode
 from ..rsfacts import NotConst as RsNotConst
 from ..rsfacts import RustProgram, expr_text, walk
@@ -100,6 +101,7 @@ def run(ctx: Ctx) -> None:
     slots(ctx, rows, ok_pre, results, pre_modes, py_to_rs)
     dispatch(ctx, rs)
     feature_parity(ctx, py, rs, rows, ok_base)
+    fetch_and_low_power(ctx, py, rs)
     ctx.extra["exhaustive"] = True
 
 
@@ -336,3 +338,45 @@ def feature_parity(ctx: Ctx, py: PyProgram, rs: RustProgram, rows: dict, ok_base
     edge = [sw.run_case(None, op, None, ("analyze", "lift"), addr=EDGE_ADDR) for op in (0x02, 0x03, 0x04, 0x05)]
     rust_formulas(ctx, py, rs, rows, edge, addr=EDGE_ADDR, tag="@page-edge")
     rust_formulas(ctx, py, rs, rows, [sw.run_case(None, op, None, ("analyze", "lift")) for op in (0x02, 0x03, 0x04, 0x05)])
+
+
+# ---------------------------------------------------------------------------
+def fetch_and_low_power(ctx: Ctx, py: PyProgram, rs: RustProgram) -> None:
+    """Two shape clauses of lockstep.  (1) The Rust core fetches every byte of every instruction from the bus on every step; the Python
+    fetch must not answer from a memo (self-modifying and freshly loaded code).  (2) HALT/OFF stop the core unconditionally in both
+    cores: the state change is on every path through the shared helper."""
+    from ..memo import memo_findings
+    INTR = "sc62015/pysc62015/intrinsics.py"
+    ctx.file_used(REPO / isa.EMU_PY)
+    ctx.file_used(REPO / INTR)
+    fn = py.func(isa.EMU_PY, "Emulator.decode_instruction")
+    for ln, what in memo_findings(py.module(isa.EMU_PY), fn, ("address",), True):
+        ctx.violation("C06.9/fetch-live", key_of(isa.EMU_PY, "Emulator.decode_instruction", "instruction remembered across steps"),
+                      what + " - the Rust core decodes from the bus on every step, so the cores diverge once code bytes change", f"{isa.EMU_PY}:{ln}")
+    n = 1
+
+    def py_uncond(f: ast.FunctionDef, pred) -> tuple[bool, int]:
+        hits = [i for i, st in enumerate(f.body) if pred(st)]
+        if not hits:
+            return False, f.lineno
+        before = f.body[:hits[0]]
+        early = [x for st in before for x in ast.walk(st) if isinstance(x, (ast.Return, ast.Raise))]
+        return (not early), (early[0].lineno if early else f.body[hits[0]].lineno)
+    lp = py.func(INTR, "_enter_low_power_state")
+    ok, ln = py_uncond(lp, lambda st: isinstance(st, ast.Assign) and any(unparse(t) == "state.halted" for t in st.targets) and isinstance(st.value, ast.Constant) and st.value.value is True)
+    n += 1
+    if not ok:
+        ctx.violation("C06.9/low-power-unconditional", key_of(INTR, "_enter_low_power_state", "halt on every path"),
+                      "the Python HALT/OFF helper does not set state.halted = True on every path (an early exit or a condition precedes it); the Rust helper enter_low_power_state sets the power state unconditionally, so the cores disagree on whether the CPU is stopped", f"{INTR}:{ln}")
+    callers = [q for q in ("eval_intrinsic_halt", "eval_intrinsic_off") if any(isinstance(c, ast.Call) and unparse(c.func) == "_enter_low_power_state" for c in ast.walk(py.func(INTR, q)))]
+    n += 1
+    if len(callers) != 2:
+        ctx.violation("C06.9/low-power-unconditional", key_of(INTR, "eval_intrinsic_halt/off", "shared helper"), f"only {callers} go through _enter_low_power_state", INTR)
+    rf = rs.fn(isa.EVAL_RS, "enter_low_power_state")
+    top = rf.body["stmts"]
+    idx = [i for i, st in enumerate(top) if st.get("k") in ("expr_stmt", "semi") and isinstance(st.get("e"), dict) and st["e"].get("k") == "mcall" and st["e"].get("m") == "set_power_state"]
+    n += 1
+    early = [x for st in (top[:idx[0]] if idx else top) for x in walk(st) if x.get("k") in ("return", "try")]
+    if not idx or early:
+        ctx.violation("C06.9/low-power-unconditional", key_of(rf.file, rf.qual, "power state on every path"), "the Rust HALT/OFF helper does not set the power state on every path", rf.where)
+    ctx.instance("C06.9/lockstep-shape", "fetch not memoised; HALT/OFF state change unconditional in both cores", n, 4)
